@@ -8,9 +8,13 @@ From Juniper Require Import Common.Base Iter.Syntax Iter.Config Iter.ModelBase I
   Iter.Events Iter.StreamEvents.
 
 Definition ssrc_scrub (k : list sevent) (s : ssrc) : ssrc :=
-  match s with SSIter i => SSIter i | SSScript evs => SSScript (cut_with k evs) end.
+  match s with
+  | SSIter i => SSIter i
+  | SSScript evs => SSScript (cut_with k evs)
+  | SSScriptNC evs => SSScriptNC (cut_with k evs)
+  end.
 Definition ssrc_codes (s : ssrc) : list Z :=
-  match s with SSIter _ => [] | SSScript evs => fatal_codes evs end.
+  match s with SSIter _ => [] | SSScript evs | SSScriptNC evs => fatal_codes evs end.
 
 Fixpoint scrub (k : list sevent) (s : sst) : sst :=
   match s with
@@ -66,22 +70,40 @@ Proof.
   - intros q Hq. destruct q; simpl in *; apply IH1; lia.
 Qed.
 
+Lemma script_next_sim k evs o evs' :
+  script_next evs = (o, evs') ->
+  incl (fatal_codes evs') (fatal_codes evs) /\
+  (script_next (cut_with k evs) = (o, cut_with k evs') \/
+   exists e, o = Err e /\ In e (fatal_codes evs)).
+Proof.
+  destruct evs as [|[x|e|e] t]; intros Hc; simpl in Hc; injection Hc as ? ?; subst; simpl.
+  - split; [apply incl_refl|left; reflexivity].
+  - split; [apply incl_refl|left; reflexivity].
+  - split; [apply incl_refl|left; reflexivity].
+  - split; [apply incl_refl|right]. exists e. simpl. auto.
+Qed.
+
 Lemma ssrc_next_sim k live :
   forall src o src', ssrc_next live src = (o, src') ->
     incl (ssrc_codes src') (ssrc_codes src) /\
     (ssrc_next live (ssrc_scrub k src) = (o, ssrc_scrub k src') \/
      exists e, o = Err e /\ In e (ssrc_codes src)).
 Proof.
-  intros src o src'. unfold ssrc_next. destruct live; simpl.
-  - destruct src as [i|evs]; simpl.
+  intros src o src'. unfold ssrc_next. destruct src as [i|evs|evs]; simpl.
+  - destruct live; simpl.
     + destruct (isrc_next i) as [ox i'] eqn:E. intros Hc. injection Hc as ? ?; subst.
       simpl. split; [apply incl_refl|left; reflexivity].
-    + destruct evs as [|[x|e|e] t]; intros Hc; injection Hc as ? ?; subst; simpl.
-      * split; [apply incl_refl|left; reflexivity].
-      * split; [apply incl_refl|left; reflexivity].
-      * split; [apply incl_refl|left; reflexivity].
-      * split; [apply incl_refl|right]. exists e. simpl. auto.
-  - intros Hc. injection Hc as ? ?; subst. split; [apply incl_refl|left; reflexivity].
+    + intros Hc. injection Hc as ? ?; subst. split; [apply incl_refl|left; reflexivity].
+  - destruct live; simpl.
+    + destruct (script_next evs) as [o1 evs1] eqn:E. intros Hc. injection Hc as ? ?; subst.
+      destruct (script_next_sim k _ _ _ E) as [Hi [Ha|Hh]].
+      * split; [exact Hi|left]. rewrite Ha. reflexivity.
+      * split; [exact Hi|right; exact Hh].
+    + intros Hc. injection Hc as ? ?; subst. split; [apply incl_refl|left; reflexivity].
+  - destruct (script_next evs) as [o1 evs1] eqn:E. intros Hc. injection Hc as ? ?; subst.
+    destruct (script_next_sim k _ _ _ E) as [Hi [Ha|Hh]].
+    + split; [exact Hi|left]. rewrite Ha. reflexivity.
+    + split; [exact Hi|right; exact Hh].
 Qed.
 
 (* ---- the master simulation theorem ---- *)
@@ -197,7 +219,7 @@ Lemma scrub_ok k : no_fatal k ->
   (forall q, dom_l q -> okl true (pl_scrub k q)).
 Proof.
   intros Hk. apply pipe_ind; simpl; intros; auto.
-  - destruct s; simpl; auto. split; [apply no_fatal_cut; exact Hk|discriminate].
+  - destruct s; simpl; auto; (split; [apply no_fatal_cut; exact Hk|discriminate]).
   - induction H as [|x t Hx Ht IH]; simpl in *; [exact I|]. destruct H0. split; auto.
   - induction H as [|x t Hx Ht IH]; simpl in *; [exact I|]. destruct H0. split; auto.
   - destruct H0. split; auto.
